@@ -1053,6 +1053,491 @@ Proof.
 Qed.
 
 (* ------------------------------------------------------------------------------------------------ *)
+(* row representation: the complement identity in the other direction (coSolve: R x = rhs)           *)
+(* ------------------------------------------------------------------------------------------------ *)
+
+(* finite sums over an index interval *)
+Fixpoint sum_from (s n : nat) (f : nat -> Q) : Q :=
+  match n with
+  | O => 0
+  | S n' => f s + sum_from (S s) n' f
+  end.
+
+Lemma sum_from_ext s n f g : (forall j, (s <= j < s + n)%nat -> f j == g j) -> sum_from s n f == sum_from s n g.
+Proof.
+  revert s. induction n as [|n IH]; intros s H; simpl; [reflexivity|].
+  rewrite (H s) by lia. rewrite IH; [reflexivity|]. intros j Hj. apply H. lia.
+Qed.
+
+Lemma sum_from_shift s n f : sum_from (S s) n f == sum_from s n (fun j => f (S j)).
+Proof. revert s. induction n as [|n IH]; intros s; simpl; [reflexivity | rewrite IH; reflexivity]. Qed.
+
+Lemma sum_from_zero s n f : (forall j, (s <= j < s + n)%nat -> f j == 0) -> sum_from s n f == 0.
+Proof.
+  revert s. induction n as [|n IH]; intros s H; simpl; [reflexivity|].
+  rewrite (H s) by lia. rewrite IH; [ring|]. intros j Hj. apply H. lia.
+Qed.
+
+(* a sum with a single non-zero term *)
+Lemma sum_from_single s n f i :
+  (forall j, j <> i -> (s <= j < s + n)%nat -> f j == 0) ->
+  sum_from s n f == (if (Nat.leb s i && Nat.ltb i (s + n))%bool then f i else 0).
+Proof.
+  revert s. induction n as [|n IH]; intros s H; simpl.
+  - replace (Nat.ltb i (s + 0)) with (Nat.ltb i s) by (f_equal; lia).
+    destruct (Nat.leb s i) eqn:A; destruct (Nat.ltb i s) eqn:B; simpl; try reflexivity.
+    apply Nat.leb_le in A. apply Nat.ltb_lt in B. lia.
+  - rewrite IH by (intros j Hj Hr; apply H; [exact Hj | lia]).
+    destruct (Nat.eq_dec s i) as [->|Hne].
+    + replace (Nat.leb (S i) i) with false by (symmetry; apply Nat.leb_gt; lia). simpl.
+      rewrite Nat.leb_refl. replace (Nat.ltb i (i + S n)) with true by (symmetry; apply Nat.ltb_lt; lia). simpl. ring.
+    + rewrite (H s Hne) by lia.
+      replace (Nat.ltb i (S s + n)) with (Nat.ltb i (s + S n)) by (f_equal; lia).
+      destruct (Nat.leb s i) eqn:A; destruct (Nat.leb (S s) i) eqn:B; simpl; try ring.
+      * apply Nat.leb_le in A. apply Nat.leb_gt in B. lia.
+      * apply Nat.leb_gt in A. apply Nat.leb_le in B. lia.
+Qed.
+
+Lemma dot_as_sum u v : dot u v == sum_from 0 (length v) (fun j => vnth u j * vnth v j).
+Proof.
+  revert u. induction v as [|b v IH]; intros u; simpl.
+  - rewrite dot_nil_r. reflexivity.
+  - destruct u as [|a u]; simpl.
+    + rewrite sum_from_zero; [ring|]. intros j _. rewrite ?vnth_nil. ring.
+    + rewrite sum_from_shift. simpl. rewrite <- IH. reflexivity.
+Qed.
+
+(* B x for columns and entries given by the same index list *)
+Lemma mulv_map_filter (P : nat -> bool) (g : nat -> vec) (f : nat -> Q) s n i :
+  vnth (mulv (map g (filter P (seq s n))) (map f (filter P (seq s n)))) i ==
+  sum_from s n (fun j => if P j then f j * vnth (g j) i else 0).
+Proof.
+  unfold mulv. revert s. induction n as [|n IH]; intros s; simpl.
+  - reflexivity.
+  - destruct (P s); simpl.
+    + rewrite vnth_vadd, vnth_vscale, IH. reflexivity.
+    + rewrite IH. ring.
+Qed.
+
+Lemma mulv_app A1 A2 x1 x2 i :
+  length A1 = length x1 -> vnth (mulv (A1 ++ A2) (x1 ++ x2)) i == vnth (mulv A1 x1) i + vnth (mulv A2 x2) i.
+Proof.
+  unfold mulv. revert x1. induction A1 as [|a A1 IH]; intros x1 H; destruct x1 as [|t x1]; simpl in *; try discriminate.
+  - ring.
+  - rewrite !vnth_vadd, IH by lia. ring.
+Qed.
+
+Lemma is_col_basic_In ids j : is_col_basic ids j = true <-> In (BCol j) ids.
+Proof.
+  induction ids as [|[i|j'] ids IH]; simpl.
+  - split; [discriminate | tauto].
+  - rewrite IH. split; [auto | intros [H|H]; [discriminate | exact H]].
+  - rewrite orb_true_iff, IH, Nat.eqb_eq. split.
+    + intros [H|H]; [left; congruence | right; exact H].
+    + intros [H|H]; [left; congruence | right; exact H].
+Qed.
+
+Lemma row_pos_spec ids k d : In (BRow k) ids -> (row_pos ids k < length ids)%nat /\ nth (row_pos ids k) ids d = BRow k.
+Proof.
+  induction ids as [|[i|j] ids IH]; simpl; intros H; [tauto | |].
+  - destruct (Nat.eqb i k) eqn:E.
+    + apply Nat.eqb_eq in E. subst. split; [lia | reflexivity].
+    + destruct H as [H|H]; [apply Nat.eqb_neq in E; congruence|]. destruct (IH H) as [A B]. split; [lia | exact B].
+  - destruct H as [H|H]; [discriminate|]. destruct (IH H) as [A B]. split; [lia | exact B].
+Qed.
+
+Lemma lp_row_length p i : length (lp_row p i) = lm_ncols p.
+Proof. unfold lp_row, lm_ncols. apply map_length. Qed.
+
+Lemma wf_lp_col_short p j i : wf_lp p = true -> (lm_rows p <= i)%nat -> vnth (nth j (lm_cols p) []) i == 0.
+Proof.
+  unfold wf_lp. intros H Hi. rewrite forallb_forall in H.
+  destruct (Nat.lt_ge_cases j (length (lm_cols p))) as [Hj|Hj].
+  - specialize (H _ (nth_In _ [] Hj)). cbv beta in H. apply Nat.eqb_eq in H.
+    assert (G : forall (col : vec) i', (length col <= i')%nat -> vnth col i' == 0).
+    { clear. induction col as [|a col IH]; intros i' Hi'; [rewrite ?vnth_nil; reflexivity|].
+      destruct i'; simpl in *; [lia | apply IH; lia]. }
+    apply G. apply (Nat.le_trans _ (lm_rows p)); [|exact Hi]. apply Nat.eq_le_incl. exact H.
+  - rewrite nth_overflow by exact Hj. rewrite ?vnth_nil. reflexivity.
+Qed.
+
+Lemma map_F2_nat (f g : nat -> vec) l : (forall a, Forall2 Qeq (f a) (g a)) -> Forall2 (Forall2 Qeq) (map f l) (map g l).
+Proof. intros H. induction l as [|a l IH]; simpl; constructor; [apply H | exact IH]. Qed.
+
+Lemma map_F2q_nat (f g : nat -> Q) l : (forall a, f a == g a) -> Forall2 Qeq (map f l) (map g l).
+Proof. intros H. induction l as [|a l IH]; simpl; constructor; [apply H | exact IH]. Qed.
+
+(* the result vector of the coSolve-based ROW-representation branches as a function of the solve result x:
+   entry for a basic slack idx: w_idx - <row idx, x>;  for a basic column idx: x_idx *)
+Definition rowrep_col_coef (ps : lpmat) (bind : list Z) (w x : vec) : vec :=
+  map (fun b => if (b <? 0)%Z then vnth w (Z.to_nat (-1 - b)) - dot (lp_row ps (Z.to_nat (-1 - b))) x
+                else vnth x (Z.to_nat b)) bind.
+
+Section RowRepCoSolveCore.
+  Variables (ps : lpmat) (ids : list bid).
+  Let m := lm_rows ps.
+  Let n := lm_ncols ps.
+  Let bind := bind_rowrep m n ids.
+  Let B := basis_matrix ps bind.
+  Hypothesis Hids : ids_ok ps ids.
+  Hypothesis Hwf : wf_lp ps = true.
+  Variables (x rhs w : vec).
+  (* R x = rhs, position by position; the right-hand side vanishes at the positions of the column bounds *)
+  Hypothesis Hx : forall t, (t < length ids)%nat -> dot x (rb_vec ps (nth t ids (BCol 0))) == vnth rhs t.
+  Hypothesis Hrhs_col : forall t j, (t < length ids)%nat -> nth t ids (BCol 0) = BCol j -> vnth rhs t == 0.
+
+  Lemma x_zero_col_basic j : is_col_basic ids j = true -> vnth x j == 0.
+  Proof.
+    intros H. apply is_col_basic_In in H. pose proof (proj2 Hids _ H) as Hj. simpl in Hj.
+    destruct (In_nth _ _ (BCol 0) H) as (t & Ht & Et).
+    pose proof (Hx t Ht) as E. rewrite Et in E. simpl in E. rewrite dot_unit in E by exact Hj.
+    rewrite E. apply (Hrhs_col t j Ht Et).
+  Qed.
+
+  Lemma rowrep_cosolve_core i :
+    vnth (mulv B (rowrep_col_coef ps bind w x)) i ==
+    dot x (lp_row ps i) +
+    (if (Nat.ltb i m && negb (is_row_basic ids i))%bool then vnth w i - dot (lp_row ps i) x else 0).
+  Proof.
+    unfold B, basis_matrix, rowrep_col_coef, bind, bind_rowrep. rewrite !map_app, !map_map.
+    rewrite mulv_app by (rewrite !map_length; reflexivity).
+    (* the slack part *)
+    rewrite (mulv_ext _ (map (fun i' => unit_vec m i') (filter (fun i0 => negb (is_row_basic ids i0)) (seq 0 m)))).
+    2:{ apply map_F2_nat. intros a.
+        unfold basis_col. replace (0 <=? -1 - Z.of_nat a)%Z with false by (symmetry; apply Z.leb_gt; lia).
+        replace (-1 - (-1 - Z.of_nat a))%Z with (Z.of_nat a) by lia. rewrite Nat2Z.id. apply F2_refl. }
+    rewrite (mulv_x_ext _ _ (map (fun i' => vnth w i' - dot (lp_row ps i') x) (filter (fun i0 => negb (is_row_basic ids i0)) (seq 0 m)))).
+    2:{ apply map_F2q_nat. intros a.
+        replace (-1 - Z.of_nat a <? 0)%Z with true by (symmetry; apply Z.ltb_lt; lia).
+        replace (-1 - (-1 - Z.of_nat a))%Z with (Z.of_nat a) by lia. rewrite Nat2Z.id. reflexivity. }
+    rewrite (mulv_map_filter (fun i0 => negb (is_row_basic ids i0)) (fun i' => unit_vec m i')).
+    (* the column part *)
+    rewrite (mulv_ext _ (map (fun j => nth j (lm_cols ps) []) (filter (fun j0 => negb (is_col_basic ids j0)) (seq 0 n)))).
+    2:{ apply map_F2_nat. intros a.
+        unfold basis_col. replace (0 <=? Z.of_nat a)%Z with true by (symmetry; apply Z.leb_le; lia). rewrite Nat2Z.id. apply F2_refl. }
+    rewrite (mulv_x_ext _ _ (map (fun j => vnth x j) (filter (fun j0 => negb (is_col_basic ids j0)) (seq 0 n)))).
+    2:{ apply map_F2q_nat. intros a.
+        replace (Z.of_nat a <? 0)%Z with false by (symmetry; apply Z.ltb_ge; lia). rewrite Nat2Z.id. reflexivity. }
+    rewrite (mulv_map_filter (fun j0 => negb (is_col_basic ids j0)) (fun j => nth j (lm_cols ps) [])).
+    (* evaluate the two sums *)
+    rewrite (sum_from_single 0 m _ i).
+    2:{ intros j Hj _. destruct (negb (is_row_basic ids j)); [|reflexivity]. rewrite vnth_unit_other by (intro; apply Hj; auto). ring. }
+    rewrite (sum_from_ext 0 n _ (fun j => vnth x j * vnth (lp_row ps i) j)).
+    2:{ intros j _. rewrite vnth_lp_row. destruct (is_col_basic ids j) eqn:E; simpl; [|reflexivity].
+        rewrite (x_zero_col_basic j E). ring. }
+    replace (sum_from 0 n (fun j => vnth x j * vnth (lp_row ps i) j))
+      with (sum_from 0 (length (lp_row ps i)) (fun j => vnth x j * vnth (lp_row ps i) j)) by (rewrite lp_row_length; reflexivity).
+    rewrite <- dot_as_sum.
+    rewrite Qplus_comm. apply Qplus_comp; [reflexivity|].
+    change (0 + m)%nat with m. change (Nat.leb 0 i) with true. cbn [andb].
+    destruct (Nat.ltb i m) eqn:Lt; simpl; [|reflexivity].
+    destruct (is_row_basic ids i); simpl; [reflexivity|].
+    apply Nat.ltb_lt in Lt. rewrite (vnth_unit_same _ _ Lt). ring.
+  Qed.
+
+  (* the value of (B coef)_i: the right-hand side entry for a row of the row basis, w_i for the other rows *)
+  Lemma rowrep_cosolve_row_basic i t :
+    (t < length ids)%nat -> nth t ids (BCol 0) = BRow i ->
+    vnth (mulv B (rowrep_col_coef ps bind w x)) i == vnth rhs t.
+  Proof.
+    intros Ht Et. rewrite rowrep_cosolve_core.
+    assert (Hin : In (BRow i) ids) by (rewrite <- Et; apply nth_In; exact Ht).
+    apply is_row_basic_In in Hin. rewrite Hin. rewrite andb_false_r.
+    pose proof (Hx t Ht) as E. rewrite Et in E. simpl in E. rewrite E. ring.
+  Qed.
+
+  Lemma rowrep_cosolve_not_row_basic i :
+    (i < m)%nat -> is_row_basic ids i = false -> vnth (mulv B (rowrep_col_coef ps bind w x)) i == vnth w i.
+  Proof.
+    intros Hi Hn. rewrite rowrep_cosolve_core. rewrite Hn.
+    replace (Nat.ltb i m) with true by (symmetry; apply Nat.ltb_lt; exact Hi). simpl.
+    rewrite (dot_comm x). ring.
+  Qed.
+
+  Lemma rowrep_cosolve_beyond i :
+    (m <= i)%nat -> vnth (mulv B (rowrep_col_coef ps bind w x)) i == 0.
+  Proof.
+    intros Hi. rewrite rowrep_cosolve_core.
+    replace (Nat.ltb i m) with false by (symmetry; apply Nat.ltb_ge; exact Hi). simpl.
+    rewrite dot_as_sum, sum_from_zero; [ring|]. intros j _. rewrite vnth_lp_row, (wf_lp_col_short ps j i Hwf Hi). ring.
+  Qed.
+End RowRepCoSolveCore.
+
+Lemma vnth_beyond (v : vec) i : (length v <= i)%nat -> vnth v i == 0.
+Proof.
+  revert i. induction v as [|a v IH]; intros i Hi; [rewrite ?vnth_nil; reflexivity|].
+  destruct i; simpl in *; [lia | apply IH; lia].
+Qed.
+
+Lemma nth_rb_matrix ps ids t : (t < length ids)%nat -> nth t (rb_matrix ps ids) [] = rb_vec ps (nth t ids (BCol 0)).
+Proof.
+  intros Ht. unfold rb_matrix. rewrite (nth_indep _ [] (rb_vec ps (BCol 0))) by (rewrite map_length; exact Ht).
+  apply map_nth.
+Qed.
+
+Lemma vnth_map_ids (f : bid -> Q) ids t : (t < length ids)%nat -> vnth (map f ids) t == f (nth t ids (BCol 0)).
+Proof.
+  revert t. induction ids as [|id ids IH]; intros t Ht; simpl in *; [lia|].
+  destruct t; simpl; [reflexivity | apply IH; lia].
+Qed.
+
+(* every index i < m is either outside the row basis or sits at a position t of it *)
+Lemma row_basic_cases ids i :
+  is_row_basic ids i = false \/ exists t, (t < length ids)%nat /\ nth t ids (BCol 0) = BRow i.
+Proof.
+  destruct (is_row_basic ids i) eqn:E; [right | left; reflexivity].
+  apply is_row_basic_In in E. destruct (In_nth _ _ (BCol 0) E) as (t & Ht & Et). exists t. split; assumption.
+Qed.
+
+(* assembled answers from a vector x that satisfies the row system position by position *)
+Lemma rowrep_col_from_x ps ids x k :
+  ids_ok ps ids -> wf_lp ps = true -> length ids = lm_ncols ps -> (k < lm_rows ps)%nat ->
+  In (BRow k) ids ->
+  (forall t, (t < length ids)%nat ->
+     dot x (rb_vec ps (nth t ids (BCol 0))) == vnth (unit_vec (lm_ncols ps) (row_pos ids k)) t) ->
+  veq (mulv (basis_matrix ps (bind_rowrep (lm_rows ps) (lm_ncols ps) ids))
+            (rowrep_col_coef ps (bind_rowrep (lm_rows ps) (lm_ncols ps) ids) [] x))
+      (unit_vec (lm_rows ps) k).
+Proof.
+  intros Hids Hwf Hlen Hk Ek Hx i.
+  destruct (row_pos_spec ids k (BCol 0) Ek) as [Hpos Epos].
+  set (index := row_pos ids k) in *.
+  assert (Hc : forall t j, (t < length ids)%nat -> nth t ids (BCol 0) = BCol j -> vnth (unit_vec (lm_ncols ps) index) t == 0).
+  { intros t j Ht Et. apply vnth_unit_other. intro E. subst t. rewrite Epos in Et. discriminate. }
+  destruct (Nat.lt_ge_cases i (lm_rows ps)) as [Hi|Hi].
+  - destruct (row_basic_cases ids i) as [Hn|(t & Ht & Et)].
+    + rewrite (rowrep_cosolve_not_row_basic ps ids Hids x _ [] Hx Hc i Hi Hn). rewrite vnth_nil.
+      symmetry. apply vnth_unit_other. intro E. subst i. apply is_row_basic_In in Ek. congruence.
+    + rewrite (rowrep_cosolve_row_basic ps ids Hids x _ [] Hx Hc i t Ht Et).
+      destruct (Nat.eq_dec t index) as [->|Hne].
+      * rewrite Epos in Et. injection Et as <-.
+        rewrite !vnth_unit_same; [reflexivity | exact Hk | rewrite <- Hlen; exact Hpos].
+      * rewrite vnth_unit_other by exact Hne. symmetry. apply vnth_unit_other. intro E. subst i.
+        apply Hne. apply (proj1 (NoDup_nth ids (BCol 0)) (proj1 Hids)); [exact Ht | exact Hpos | congruence].
+  - rewrite (rowrep_cosolve_beyond ps ids Hids Hwf x _ [] Hx Hc i Hi).
+    symmetry. apply vnth_unit_other. lia.
+Qed.
+
+Lemma rowrep_unit_case ps ids k :
+  ids_ok ps ids -> wf_lp ps = true -> (k < lm_rows ps)%nat -> is_row_basic ids k = false ->
+  veq (mulv (basis_matrix ps (bind_rowrep (lm_rows ps) (lm_ncols ps) ids))
+            (map (fun b => if Z.eqb b (-1 - Z.of_nat k) then 1 else 0) (bind_rowrep (lm_rows ps) (lm_ncols ps) ids)))
+      (unit_vec (lm_rows ps) k).
+Proof.
+  intros Hids Hwf Hk Ek i.
+  rewrite (mulv_x_ext _ _ (rowrep_col_coef ps (bind_rowrep (lm_rows ps) (lm_ncols ps) ids) (unit_vec (lm_rows ps) k) [])).
+  2:{ unfold rowrep_col_coef. apply map_F2. intros b Hb.
+      apply bind_rowrep_spec in Hb as [(K1 & K2 & _)|(K1 & K2 & _)].
+      - replace (b <? 0)%Z with true by (symmetry; apply Z.ltb_lt; exact K1).
+        rewrite dot_nil_r.
+        destruct (Z.eqb b (-1 - Z.of_nat k)) eqn:E.
+        + apply Z.eqb_eq in E. replace (Z.to_nat (-1 - b)) with k by lia. rewrite vnth_unit_same by exact Hk. ring.
+        + apply Z.eqb_neq in E. rewrite vnth_unit_other by lia. ring.
+      - replace (b <? 0)%Z with false by (symmetry; apply Z.ltb_ge; exact K1).
+        replace (Z.eqb b (-1 - Z.of_nat k)) with false by (symmetry; apply Z.eqb_neq; lia).
+        rewrite vnth_nil. reflexivity. }
+  assert (Hx : forall t, (t < length ids)%nat -> dot [] (rb_vec ps (nth t ids (BCol 0))) == vnth [] t).
+  { intros t _. rewrite vnth_nil. reflexivity. }
+  assert (Hc : forall t j, (t < length ids)%nat -> nth t ids (BCol 0) = BCol j -> vnth [] t == 0).
+  { intros t j _ _. rewrite vnth_nil. reflexivity. }
+  destruct (Nat.lt_ge_cases i (lm_rows ps)) as [Hi|Hi].
+  - destruct (row_basic_cases ids i) as [Hn|(t & Ht & Et)].
+    + rewrite (rowrep_cosolve_not_row_basic ps ids Hids [] [] _ Hx Hc i Hi Hn). reflexivity.
+    + rewrite (rowrep_cosolve_row_basic ps ids Hids [] [] _ Hx Hc i t Ht Et). rewrite vnth_nil.
+      symmetry. apply vnth_unit_other. intro E. subst i.
+      assert (Hin : In (BRow k) ids) by (rewrite <- Et; apply nth_In; exact Ht).
+      apply is_row_basic_In in Hin. congruence.
+  - rewrite (rowrep_cosolve_beyond ps ids Hids Hwf [] [] _ Hx Hc i Hi).
+    symmetry. apply vnth_unit_other. lia.
+Qed.
+
+Definition row_rhs (v : vec) (ids : list bid) : vec :=
+  map (fun id => match id with BRow i0 => vnth v i0 | BCol _ => 0 end) ids.
+
+Lemma rowrep_solve_from_x ps ids y v :
+  ids_ok ps ids -> wf_lp ps = true -> length v = lm_rows ps ->
+  (forall t, (t < length ids)%nat -> dot y (rb_vec ps (nth t ids (BCol 0))) == vnth (row_rhs v ids) t) ->
+  veq (mulv (basis_matrix ps (bind_rowrep (lm_rows ps) (lm_ncols ps) ids))
+            (rowrep_col_coef ps (bind_rowrep (lm_rows ps) (lm_ncols ps) ids) v y)) v.
+Proof.
+  intros Hids Hwf Hv Hx i.
+  assert (Hc : forall t j, (t < length ids)%nat -> nth t ids (BCol 0) = BCol j -> vnth (row_rhs v ids) t == 0).
+  { intros t j Ht Et. unfold row_rhs. rewrite (vnth_map_ids _ ids t Ht), Et. reflexivity. }
+  destruct (Nat.lt_ge_cases i (lm_rows ps)) as [Hi|Hi].
+  - destruct (row_basic_cases ids i) as [Hn|(t & Ht & Et)].
+    + apply (rowrep_cosolve_not_row_basic ps ids Hids y _ v Hx Hc i Hi Hn).
+    + rewrite (rowrep_cosolve_row_basic ps ids Hids y _ v Hx Hc i t Ht Et).
+      unfold row_rhs. rewrite (vnth_map_ids _ ids t Ht), Et. reflexivity.
+  - rewrite (rowrep_cosolve_beyond ps ids Hids Hwf y _ v Hx Hc i Hi).
+    symmetry. apply vnth_beyond. lia.
+Qed.
+
+(* getBasisInverseColReal, ROW representation, plain branch *)
+Lemma binv_col_rowrep_plain ps ids r c coSolve k :
+  ids_ok ps ids -> wf_lp ps = true -> length ids = lm_ncols ps ->
+  (forall b, length b = lm_ncols ps -> veq (vmul (coSolve b) (rb_matrix ps ids)) b) ->
+  (k < lm_rows ps)%nat ->
+  veq (mulv (basis_matrix ps (bind_rowrep (lm_rows ps) (lm_ncols ps) ids)) (binv_col_rowrep coSolve false r c ps ids k))
+      (unit_vec (lm_rows ps) k).
+Proof.
+  intros Hids Hwf Hlen Hs Hk i. unfold binv_col_rowrep.
+  destruct (is_row_basic ids k) eqn:Ek; cbn [negb].
+  - apply is_row_basic_In in Ek.
+    set (x := coSolve (unit_vec (lm_ncols ps) (row_pos ids k))).
+    rewrite (mulv_x_ext _ _ (rowrep_col_coef ps (bind_rowrep (lm_rows ps) (lm_ncols ps) ids) [] x)).
+    2:{ unfold rowrep_col_coef. apply map_F2. intros b _. destruct (b <? 0)%Z; [rewrite vnth_nil; ring | reflexivity]. }
+    apply (rowrep_col_from_x ps ids x k Hids Hwf Hlen Hk Ek).
+    intros t Ht. rewrite <- (nth_rb_matrix ps ids t Ht), <- vnth_vmul. apply Hs. apply unit_vec_length.
+  - apply (rowrep_unit_case ps ids k Hids Hwf Hk Ek).
+Qed.
+
+(* getBasisInverseTimesVecReal, ROW representation, plain branch *)
+Lemma binv_times_vec_rowrep_plain ps ids r c coSolve v :
+  ids_ok ps ids -> wf_lp ps = true -> length ids = lm_ncols ps ->
+  (forall b, length b = lm_ncols ps -> veq (vmul (coSolve b) (rb_matrix ps ids)) b) ->
+  length v = lm_rows ps ->
+  veq (mulv (basis_matrix ps (bind_rowrep (lm_rows ps) (lm_ncols ps) ids)) (binv_times_vec_rowrep coSolve false r c ps ids v)) v.
+Proof.
+  intros Hids Hwf Hlen Hs Hv. unfold binv_times_vec_rowrep. cbn iota.
+  apply (rowrep_solve_from_x ps ids _ v Hids Hwf Hv).
+  intros t Ht. rewrite <- (nth_rb_matrix ps ids t Ht), <- vnth_vmul. apply Hs. unfold row_rhs. rewrite map_length. exact Hlen.
+Qed.
+
+(* ------------------------------------------------------------------------------------------------ *)
+(* the three repaired ROW-representation branches return the answer for the user's matrix            *)
+(* ------------------------------------------------------------------------------------------------ *)
+
+Lemma F2_of_vnth (u v : vec) : length u = length v -> (forall i, vnth u i == vnth v i) -> Forall2 Qeq u v.
+Proof.
+  revert v. induction u as [|a u IH]; intros [|b v] L H; simpl in L; try discriminate; constructor.
+  - exact (H 0%nat).
+  - apply IH; [lia | intros i; exact (H (S i))].
+Qed.
+
+Lemma vnth_scale_col r cj col i : vnth (scale_col r cj col) i == vnth col i * pow2 (nth i r 0%Z) * pow2 cj.
+Proof. rewrite (vnth_F2 _ _ (scale_col_factor r cj col) i), vnth_vscale, vnth_dscale. ring. Qed.
+
+Lemma vnth_lp_row_scale r c p i j :
+  vnth (lp_row (scale r c p) i) j == pow2 (nth i r 0%Z) * (vnth (lp_row p i) j * pow2 (nth j c 0%Z)).
+Proof.
+  rewrite !vnth_lp_row. simpl. rewrite nth_scale_cols, vnth_scale_col. ring.
+Qed.
+
+Lemma dot_lp_row_scale r c p i y :
+  dot (lp_row (scale r c p) i) y == pow2 (nth i r 0%Z) * dot (lp_row p i) (dscale c y).
+Proof.
+  rewrite (dot_F2_l _ (vscale (pow2 (nth i r 0%Z)) (dscale c (lp_row p i)))).
+  - rewrite dot_vscale_l, (dot_comm (dscale c (lp_row p i)) y), dot_dscale, dot_comm. reflexivity.
+  - apply F2_of_vnth.
+    + unfold vscale. rewrite map_length, dscale_length, !lp_row_length. apply lm_ncols_scale.
+    + intros j. rewrite vnth_lp_row_scale, vnth_vscale, vnth_dscale. reflexivity.
+Qed.
+
+Lemma lp_row_unscaled_scale r c p i : Forall2 Qeq (lp_row_unscaled r c (scale r c p) i) (lp_row p i).
+Proof.
+  apply F2_of_vnth.
+  - unfold lp_row_unscaled, vscale. rewrite dscale_length, map_length, !lp_row_length. apply lm_ncols_scale.
+  - intros j. unfold lp_row_unscaled. rewrite vnth_dscale, vnth_vscale, vnth_lp_row_scale, nth_zneg.
+    setoid_replace (pow2 (- nth i r 0%Z) * (pow2 (nth i r 0%Z) * (vnth (lp_row p i) j * pow2 (nth j c 0%Z))) * pow2 (- nth j c 0%Z))
+      with (vnth (lp_row p i) j * (pow2 (nth i r 0%Z) * pow2 (- nth i r 0%Z)) * (pow2 (nth j c 0%Z) * pow2 (- nth j c 0%Z))) by ring.
+    rewrite !pow2_opp_r. ring.
+Qed.
+
+Lemma ids_ok_scale r c p ids : ids_ok p ids -> ids_ok (scale r c p) ids.
+Proof.
+  intros [N R]. split; [exact N|]. intros id Hid. specialize (R id Hid). destruct id; [exact R|].
+  rewrite lm_ncols_scale. exact R.
+Qed.
+
+(* multBasis, as patched *)
+Lemma mult_rowrep_fixed_plain r c ps ids x :
+  veq (mult_rowrep_fixed false r c ps ids x) (mulv (basis_matrix ps (bind_rowrep (lm_rows ps) (lm_ncols ps) ids)) x).
+Proof. intros i. reflexivity. Qed.
+
+Lemma mult_rowrep_fixed_unscale r c p ids x :
+  veq (mult_rowrep_fixed true r c (scale r c p) ids x) (mulv (basis_matrix p (bind_rowrep (lm_rows p) (lm_ncols p) ids)) x).
+Proof.
+  intros i. unfold mult_rowrep_fixed. rewrite lm_ncols_scale. cbn [lm_rows scale].
+  apply mulv_ext. unfold basis_matrix.
+  induction (bind_rowrep (lm_rows p) (lm_ncols p) ids) as [|b l IH]; simpl; constructor; [|exact IH].
+  unfold basis_col. destruct (0 <=? b)%Z.
+  - unfold lp_col_unscaled. cbn [lm_cols scale]. rewrite nth_scale_cols. apply col_unscale_scale.
+  - apply F2_refl.
+Qed.
+
+(* getBasisInverseTimesVecReal, as patched *)
+Lemma binv_times_vec_rowrep_fixed_unscale p ids r c coSolve v :
+  ids_ok p ids -> wf_lp p = true -> length ids = lm_ncols p ->
+  (forall b, length b = lm_ncols p -> veq (vmul (coSolve b) (rb_matrix (scale r c p) ids)) b) ->
+  length v = lm_rows p ->
+  veq (mulv (basis_matrix p (bind_rowrep (lm_rows p) (lm_ncols p) ids))
+            (binv_times_vec_rowrep_fixed coSolve true r c (scale r c p) ids v)) v.
+Proof.
+  intros Hids Hwf Hlen Hs Hv i. unfold binv_times_vec_rowrep_fixed. rewrite lm_ncols_scale. cbn [lm_rows scale]. cbn iota.
+  set (ps := scale r c p).
+  set (rowrhs := map (fun id => match id with BRow i0 => vnth v i0 * pow2 (nth i0 r 0%Z) | BCol _ => 0 end) ids).
+  set (y' := coSolve rowrhs). set (y := dscale c y').
+  assert (Hy' : forall t, (t < length ids)%nat -> dot y' (rb_vec ps (nth t ids (BCol 0))) == vnth rowrhs t).
+  { intros t Ht. rewrite <- (nth_rb_matrix ps ids t Ht), <- vnth_vmul. apply Hs. unfold rowrhs. rewrite map_length. exact Hlen. }
+  rewrite (mulv_x_ext _ _ (rowrep_col_coef p (bind_rowrep (lm_rows p) (lm_ncols p) ids) v y)).
+  2:{ unfold rowrep_col_coef. apply map_F2. intros b _. destruct (b <? 0)%Z.
+      - unfold ps. rewrite dot_lp_row_scale. fold y.
+        setoid_replace (pow2 (nth (Z.to_nat (-1 - b)) r 0%Z) * dot (lp_row p (Z.to_nat (-1 - b))) y * pow2 (- nth (Z.to_nat (-1 - b)) r 0%Z))
+          with (dot (lp_row p (Z.to_nat (-1 - b))) y * (pow2 (nth (Z.to_nat (-1 - b)) r 0%Z) * pow2 (- nth (Z.to_nat (-1 - b)) r 0%Z))) by ring.
+        rewrite pow2_opp_r. ring.
+      - unfold y. rewrite vnth_dscale. reflexivity. }
+  apply (rowrep_solve_from_x p ids y v Hids Hwf Hv).
+  intros t Ht. specialize (Hy' t Ht). unfold row_rhs. rewrite (vnth_map_ids _ ids t Ht).
+  unfold rowrhs in Hy'. rewrite (vnth_map_ids _ ids t Ht) in Hy'.
+  destruct (nth t ids (BCol 0)) as [i0|j] eqn:Et; cbn [rb_vec] in *.
+  - unfold ps in Hy'. rewrite dot_comm, dot_lp_row_scale in Hy'. fold y in Hy'.
+    rewrite (Qmult_comm (vnth v i0)) in Hy'. rewrite (dot_comm y).
+    apply (Qmult_inj_l _ _ (pow2 (nth i0 r 0%Z))); [apply pow2_nz | exact Hy'].
+  - assert (Hj : (j < lm_ncols p)%nat).
+    { assert (Hin : In (BCol j) ids) by (rewrite <- Et; apply nth_In; exact Ht). exact (proj2 Hids _ Hin). }
+    unfold ps in Hy'. rewrite lm_ncols_scale in Hy'. rewrite dot_unit in Hy' by exact Hj.
+    rewrite dot_unit by exact Hj. unfold y. rewrite vnth_dscale, Hy'. ring.
+Qed.
+
+(* getBasisInverseColReal, as patched *)
+Lemma binv_col_rowrep_fixed_unscale p ids r c coSolve k :
+  ids_ok p ids -> wf_lp p = true -> length ids = lm_ncols p ->
+  (forall b, length b = lm_ncols p -> veq (vmul (coSolve b) (rb_matrix (scale r c p) ids)) b) ->
+  (k < lm_rows p)%nat ->
+  veq (mulv (basis_matrix p (bind_rowrep (lm_rows p) (lm_ncols p) ids))
+            (binv_col_rowrep_fixed coSolve true r c (scale r c p) ids k))
+      (unit_vec (lm_rows p) k).
+Proof.
+  intros Hids Hwf Hlen Hs Hk. unfold binv_col_rowrep_fixed. rewrite lm_ncols_scale. cbn [lm_rows scale].
+  destruct (is_row_basic ids k) eqn:Ek; cbn [negb].
+  2:{ apply (rowrep_unit_case p ids k Hids Hwf Hk Ek). }
+  intros i. apply is_row_basic_In in Ek. destruct (row_pos_spec ids k (BCol 0) Ek) as [Hpos Epos].
+  set (ps := scale r c p). set (index := row_pos ids k) in *.
+  set (rhs := vscale (pow2 (nth k r 0%Z)) (unit_vec (lm_ncols p) index)).
+  set (x' := coSolve rhs). set (x := dscale c x').
+  assert (Hx' : forall t, (t < length ids)%nat -> dot x' (rb_vec ps (nth t ids (BCol 0))) == vnth rhs t).
+  { intros t Ht. rewrite <- (nth_rb_matrix ps ids t Ht), <- vnth_vmul. apply Hs. unfold rhs, vscale. rewrite map_length. apply unit_vec_length. }
+  rewrite (mulv_x_ext _ _ (rowrep_col_coef p (bind_rowrep (lm_rows p) (lm_ncols p) ids) [] x)).
+  2:{ unfold rowrep_col_coef. apply map_F2. intros b _. destruct (b <? 0)%Z; [|reflexivity].
+      unfold ps. rewrite (dot_F2_l _ _ x (lp_row_unscaled_scale r c p (Z.to_nat (-1 - b)))). rewrite vnth_nil. ring. }
+  apply (rowrep_col_from_x p ids x k Hids Hwf Hlen Hk Ek). fold index.
+  intros t Ht. specialize (Hx' t Ht). unfold rhs in Hx'. rewrite vnth_vscale in Hx'.
+  destruct (nth t ids (BCol 0)) as [i0|j] eqn:Et; cbn [rb_vec] in *.
+  - unfold ps in Hx'. rewrite dot_comm, dot_lp_row_scale in Hx'. fold x in Hx'. rewrite (dot_comm x).
+    destruct (Nat.eq_dec t index) as [->|Hne].
+    + rewrite Epos in Et. injection Et as <-.
+      apply (Qmult_inj_l _ _ (pow2 (nth k r 0%Z))); [apply pow2_nz | exact Hx'].
+    + rewrite vnth_unit_other in * by exact Hne.
+      apply (Qmult_inj_l _ _ (pow2 (nth i0 r 0%Z))); [apply pow2_nz |]. rewrite Hx'. ring.
+  - assert (Hj : (j < lm_ncols p)%nat).
+    { assert (Hin : In (BCol j) ids) by (rewrite <- Et; apply nth_In; exact Ht). exact (proj2 Hids _ Hin). }
+    assert (Hne : t <> index) by (intro E; subst t; rewrite Epos in Et; discriminate).
+    unfold ps in Hx'. rewrite lm_ncols_scale in Hx'. rewrite dot_unit in Hx' by exact Hj.
+    rewrite dot_unit by exact Hj. rewrite vnth_unit_other in * by exact Hne.
+    unfold x. rewrite vnth_dscale, Hx'. ring.
+Qed.
+
+(* ------------------------------------------------------------------------------------------------ *)
 (* row representation: three branches whose faithful model does NOT return the answer for the user's *)
 (* matrix although the inner solve is exact (witnesses evaluated by vm_compute)                      *)
 (* ------------------------------------------------------------------------------------------------ *)
